@@ -59,6 +59,17 @@ def gen(rng, tier):
             alt = unicodedata.normalize(form, pw)
             if alt != pw:
                 cases.append(Case("mn.seed %s %s" % (hx(" ".join(ws)), hx(alt)), tags=("nfkd-equivalent",), meta=meta))
+    # canonical phrases of exactly 127 / 128 / 129 bytes (the HMAC-SHA512 block size) and other lengths around it
+    want = {126: 2, 127: 3, 128: 4, 129: 3, 130: 2}
+    tries = 0
+    while any(want.values()) and tries < 20000:
+        tries += 1
+        ws = bip39.rand_phrase(rng, rng.choice([18, 21, 21, 24]))
+        L = len(" ".join(ws))
+        if want.get(L, 0) > 0:
+            want[L] -= 1
+            for pw in ("", "TREZOR", "pässwörd"):
+                cases.append(Case("mn.seed %s %s" % (hx(" ".join(ws)), hx(pw)), tags=("phrase-bytes:%d" % L,)))
     # every code point with a non-trivial NFKD mapping or a non-zero combining class, ALONE between ASCII
     # letters (so that no other character of the passphrase can mask a fast path): all of them below
     # U+0250 and a stratified sample of the rest (thorough: all 6.7k of the table)
